@@ -32,6 +32,18 @@ PANICKING = [
     (r"^std::rt::panic_fmt$", "panic"),
     (r"^std::process::(exit|abort)$", "exit"),
     (r"^core::num::<impl (u|i)(8|16|32|64|128|size)>::(pow|abs|div_euclid|rem_euclid|next_power_of_two|ilog|ilog2|ilog10|isqrt|strict_\w+|unchecked_\w+)$", "int-panic"),
+    # preconditions checked with assert! inside std
+    (r"^std::cmp::Ord::clamp$", "clamp-min-gt-max"),
+    (r"^core::(f32|f64)::<impl (f32|f64)>::clamp$", "clamp-min-gt-max"),
+    (r"^core::num::<impl (u|i)(8|16|32|64|128|size)>::(next_multiple_of|div_ceil)$", "int-round"),
+    (r"^core::slice::<impl \[T\]>::(rchunks|rchunks_exact|chunks_mut|chunks_exact_mut|rchunks_mut|array_chunks|array_windows|swap_with_slice|select_nth_unstable_by|select_nth_unstable_by_key|as_chunks|as_rchunks)$", "slice-panic"),
+    (r"^std::iter::Iterator::(array_chunks|map_windows)$", "step_by-zero"),
+    (r"^core::str::<impl str>::(repeat)$", "capacity"),
+    (r"^alloc::str::<impl str>::repeat$", "capacity"),
+    (r"^alloc::slice::<impl \[T\]>::repeat$", "capacity"),
+    (r"^std::num::NonZero::<T>::new_unchecked$", "ub"),
+    (r"^core::(u|i)(8|16|32|64|128|size)::from_str_radix$", "digit-radix"),
+    (r"^core::num::<impl (u|i)(8|16|32|64|128|size)>::from_str_radix$", "digit-radix"),
     (r"^std::char::from_digit$", "from_digit"),
     (r"^core::char::methods::<impl char>::(from_digit|to_digit)$", "digit-radix"),
     (r"^std::collections::(hash_map::)?HashMap::<K, V, S>::index$", "map-index"),
@@ -443,6 +455,8 @@ def discharge(site, fx, policy):
                     return "D-count-bounded: x + (a count over the elements from x on) <= len of the slice"
             return None
         if op == "Sub":
+            if next_multiple_of_same(l, r, fam):
+                return "D-round-up: len.next_multiple_of(N) - len is in 0..N (a len() is <= isize::MAX, the rounding cannot overflow)"
             # N - (e % N)
             lv = int_lit(l)
             rr = F.strip(r)
@@ -546,6 +560,13 @@ def discharge(site, fx, policy):
                 if rec:
                     return rec
                 return None
+            return None
+        if kind == "int-round":
+            # x.next_multiple_of(N) / x.div_ceil(N) with x a len() (<= isize::MAX) and N a small positive literal: no overflow, no zero divisor
+            nn = int_lit(args[1]) if len(args) == 2 else None
+            a0 = value_expr(args[0], fam)
+            if nn is not None and 0 < nn <= 4096 and a0 is not None and F.is_call(FL.peel(a0), *LEN_CALLS):
+                return "D-round-up: rounding a len() (<= isize::MAX) up to a multiple of the literal %d cannot overflow" % nn
             return None
         if kind == "unwrap":
             inner = FL.peel(args[0])
@@ -936,7 +957,11 @@ def upper_bound(n, fam, depth=0):
     if k == "Binary" and n["op"] == "Sub":
         a = int_lit(n["l"])
         b = upper_bound(n["r"], fam, depth + 1)
-        return a if a is not None and b is not None and b <= a else None
+        if a is not None and b is not None and b <= a:
+            return a
+        # x.next_multiple_of(N) - x  is in 0..N
+        nm = next_multiple_of_same(n["l"], n["r"], fam)
+        return nm - 1 if nm else None
     if k == "If" and n.get("else") is not None:
         x, y = upper_bound(n["then"], fam, depth + 1), upper_bound(n["else"], fam, depth + 1)
         return max(x, y) if x is not None and y is not None else None
@@ -964,6 +989,21 @@ def upper_bound(n, fam, depth=0):
     if k == "Cast":
         return upper_bound(n["e"], fam, depth + 1)
     return None
+
+
+def next_multiple_of_same(l, r, fam):
+    """N if l is (a let-bound copy of) `r.next_multiple_of(N)` with a positive literal/constant N, and r is a len(): l >= r and
+    l - r < N; the rounding itself cannot overflow because a len() is <= isize::MAX"""
+    lv = value_expr(l, fam)
+    lv = FL.peel(lv) if lv is not None else None
+    if lv is None or not (lv.get("k") == "Call" and "fn" in lv and lv["fn"]["path"].endswith("::next_multiple_of") and len(lv["args"]) == 2):
+        return None
+    nn = int_lit(lv["args"][1])
+    if nn is None or not (0 < nn <= 4096):
+        return None
+    if not F.is_call(FL.peel(r), *LEN_CALLS) or not same_value(lv["args"][0], r, fam):
+        return None
+    return nn
 
 
 def str_lit(n):
